@@ -241,7 +241,7 @@ NOT_APPLICABLE = {}
 
 PROPS = {
     "C01": {
-        "modules": ["RsddModel.Props.C01", "RsddModel.Props.C01Total", "RsddModel.Props.TieIte", "RsddModel.Props.TieOrders", "RsddModel.Props.TieBddCore", "RsddModel.Props.TieBddCoreSource"],
+        "modules": ["RsddModel.Props.C01", "RsddModel.Props.C01Order", "RsddModel.Props.C01Total", "RsddModel.Props.TieIte", "RsddModel.Props.TieOrders", "RsddModel.Props.TieBddCore", "RsddModel.Props.TieBddCoreSource"],
         "streams": [BDD_STREAM],
         "rule": BDD_RULE,
         "trusted": ["modelled not verified: unique table (C02), FxHasher (arbitrary function), unsafe aliasing of compute_table, std HashMap memo of cond_with_alloc (association list)"],
